@@ -29,9 +29,17 @@ def body(c):
     rng = random.Random(c.seed)
     path = os.path.join(common.VERIF, "out", "cfg", "HS.cfg")
     leaves0 = {"None", "True", "False", "i0", "i1", "f0", "f1", "fm0", "sa", "sb", "ba", "se"}
-    tlc.write_cfg(path, constants=dict(Leaves0=leaves0, Leaves1={"i1", "f1", "sa"} if c.quick else {"i1", "f1", "sa", "ba"}, MaxElems=2), init="Init", next="Next", constraint="Emit")
-    r = tlc.run("Hasher", path, workers=1, timeout=1700, heap="8g"); c.add_tlc("Hasher[universe]", r)
-    terms = tlc.printed_json(r)
+    # the universe grows too fast with the leaves allowed below depth-2 containers (4 leaves: > 15 min of enumeration);
+    # the thorough tier takes the union of the universes of three 3-leaf choices instead
+    l1s = [{"i1", "f1", "sa"}] if c.quick else [{"i1", "f1", "sa"}, {"f1", "sa", "ba"}, {"i1", "ba", "None"}]
+    terms = []; seen_terms = set()
+    for k, l1 in enumerate(l1s):
+        tlc.write_cfg(path, constants=dict(Leaves0=leaves0, Leaves1=l1, MaxElems=2), init="Init", next="Next", constraint="Emit")
+        r = tlc.run("Hasher", path, workers=1, timeout=1700, heap="8g"); c.add_tlc("Hasher[universe %d]" % k, r)
+        for t in tlc.printed_json(r):
+            key = json.dumps(t)
+            if key not in seen_terms: seen_terms.add(key); terms.append(t)
+    del seen_terms
     c.extra["universe"] = len(terms)
     seeds = ["0", "1", "2", "random"] if not c.quick else ["0", "1", "random"]
     base = common.scratch("c08")
